@@ -229,6 +229,19 @@ class Ctx:
         self.solver.add(z3.Not(c))
         self._check()
         m = self.solver.model()
+        # prefer a counterexample a concrete replay can see: no variable of microscopic magnitude (solvers like to sit on
+        # the boundary, e.g. 2^-32 s); fall back to the first model when no such counterexample exists
+        try:
+            nice = [z3.Or(v == 0, v >= 0.125, v <= -0.125) for v in self.vars.values()
+                    if not isinstance(v, tuple) and z3.is_real(v)]
+            if nice:
+                self.solver.push()
+                self.solver.add(*nice)
+                if self._check() == z3.sat:
+                    m = self.solver.model()
+                self.solver.pop()
+        except z3.Z3Exception:
+            pass
         self.solver.pop()
         raise Violation(what, m, data)
 
